@@ -46,7 +46,8 @@ def resolve(files, main, tokenizer=L.tokenize, limit=2000000):
                 if i + 1 >= n or ts[i + 1][0] != L.FNAME:
                     line = ts[i + 1][2] if i + 1 < n else l
                     r.errors.append((EXPECTED_FILENAME, name, line, ""))
-                    r.malformed = True
+                    if i + 1 < n:
+                        r.malformed = True   # a token follows the directive inside this file: what happens to it is not judged
                     i += 2
                     continue
                 fn = ts[i + 1][1][1:-1]
